@@ -11,6 +11,7 @@
            "~" = NULL, "-" = empty string -/
 import NngModel.Driver.Common
 import NngModel.Model.Url
+import NngModel.Model.UrlBuf
 import NngModel.Spec.Url
 namespace Nng.Driver.Url
 open Nng
@@ -23,10 +24,23 @@ def showUrl (pre : String) (u : Nng.Url.Url) : String :=
   s!"{pre}s={toHex u.scheme} {pre}u={optHex u.userinfo} {pre}h={optHex u.hostname} {pre}p={u.port} " ++
   s!"{pre}P={toHex u.path} {pre}q={optHex u.query} {pre}f={optHex u.fragment} {pre}bz={u.bufsz}"
 
+/-- the in-place buffer model (Model/UrlBuf.lean) must give the same result as the functional
+    model and must not have touched anything outside the buffer; otherwise the line differs from
+    the implementation's and the correspondence check reports it -/
+def bufAgrees (raw : Bytes) (r : Nng.Url.R) : String :=
+  let b := Nng.UrlBuf.parse raw
+  if b.rv = r.rv && b.url = r.url && b.mem.safe then "" else " BUFFER-MODEL-DIFFERS"
+
+def canonBufAgrees (raw : Bytes) (o : Option Bytes) : String :=
+  let m : Nng.UrlBuf.Mem := ⟨(raw ++ [0]).toArray, true⟩
+  let c := Nng.UrlBuf.canonifyAt (raw.length + 2) m 0
+  let got : Option Bytes := if c.2 then some (Nng.UrlBuf.cstr (raw.length + 2) c.1 0).2 else none
+  if got = o && c.1.safe then "" else " BUFFER-MODEL-DIFFERS"
+
 def modelUrl (raw : Bytes) : String :=
   let r := Nng.Url.parse raw
   match r.url with
-  | none => s!"{r.rv}"
+  | none => s!"{r.rv}" ++ bufAgrees raw r
   | some u =>
     let s := Nng.Url.sprintf u
     let r2 := Nng.Url.parse s
@@ -37,15 +51,15 @@ def modelUrl (raw : Bytes) : String :=
     let cl := match r3.url with
       | none => s!"cl={r3.rv}"
       | some u3 => s!"cl=0 {showUrl "c" u3}"
-    s!"0 {showUrl "" u} S={toHex s} {rt} {cl}"
+    s!"0 {showUrl "" u} S={toHex s} {rt} {cl}" ++ bufAgrees raw r
 
 def modelCanon (raw : Bytes) : String :=
   match Nng.Url.canonify raw with
-  | none => s!"{Err.einval}"
+  | none => s!"{Err.einval}" ++ canonBufAgrees raw none
   | some o =>
-    match Nng.Url.canonify o with
+    (match Nng.Url.canonify o with
     | none => s!"0 o={toHex o} again={Err.einval}"
-    | some o2 => s!"0 o={toHex o} again=0 o2={toHex o2}"
+    | some o2 => s!"0 o={toHex o} again=0 o2={toHex o2}") ++ canonBufAgrees raw (some o)
 
 def mstep (_ : Unit) (ws : List String) : Unit × String :=
   match ws with
